@@ -125,11 +125,20 @@ def sh(cmd, cwd, timeout, env=None):
     e["CARGO_NET_OFFLINE"] = "true"
     if env:
         e.update(env)
+    # own process group, so that a timeout also ends the test binaries the shell started (a mutant that makes a
+    # test spin would otherwise leave a process burning CPU for the rest of the sweep)
+    import signal
+    p = subprocess.Popen(cmd, cwd=cwd, shell=True, stdout=subprocess.PIPE, stderr=subprocess.STDOUT, env=e, stdin=subprocess.DEVNULL, start_new_session=True)
     try:
-        p = subprocess.run(cmd, cwd=cwd, shell=True, stdout=subprocess.PIPE, stderr=subprocess.STDOUT, timeout=timeout, env=e, stdin=subprocess.DEVNULL)
-        return p.returncode, p.stdout.decode("utf-8", "replace")
-    except subprocess.TimeoutExpired as ex:
-        return 124, (ex.stdout or b"").decode("utf-8", "replace") + "\nTIMEOUT"
+        out, _ = p.communicate(timeout=timeout)
+        return p.returncode, out.decode("utf-8", "replace")
+    except subprocess.TimeoutExpired:
+        try:
+            os.killpg(p.pid, signal.SIGKILL)
+        except ProcessLookupError:
+            pass
+        out, _ = p.communicate()
+        return 124, (out or b"").decode("utf-8", "replace") + "\nTIMEOUT"
 
 
 def setup_lane(work, k):
